@@ -279,8 +279,13 @@ def check_runave(spec, ctx):
 @st.composite
 def spec_acf(draw, tier):
     T = draw(st.integers(10, 50))
-    return {"x": [rnd(draw(fl(-3, 3)), 3) for _ in range(T)], "L": draw(st.integers(1, 6)), "stride": draw(st.integers(1, 3)),
-            "normalize": draw(st.booleans())}
+    vec = draw(st.integers(0, 2)) == 0
+    sp = {"x": [rnd(draw(fl(-3, 3)), 3) for _ in range(T)], "L": draw(st.integers(1, 6)), "stride": draw(st.integers(1, 3)),
+          "normalize": draw(st.booleans()), "vec": vec, "p2": vec and draw(st.booleans())}
+    if vec:
+        # a 3-vector variable (position of one atom): lengths vary from frame to frame
+        sp["xyz"] = [[rnd(draw(fl(-3, 3)), 3), rnd(draw(fl(-3, 3)), 3), rnd(draw(fl(0.5, 3)), 3)] for _ in range(T)]
+    return sp
 
 
 def check_acf(spec, ctx):
@@ -289,19 +294,34 @@ def check_acf(spec, ctx):
     for f in (path, path + ".BAK"):
         if os.path.exists(f):
             os.unlink(f)
-    cfg = cvz.zvar("z0", 1, -20, 20, 0.5, extra={"corrFunc": "on", "corrFuncType": "coordinate", "corrFuncLength": str(spec["L"]),
-                                                "corrFuncStride": str(spec["stride"]), "corrFuncNormalize": "on" if spec["normalize"] else "off"})
+    if spec.get("vec"):
+        cfg = ("colvar {\n  name z0\n  corrFunc on\n  corrFuncType %s\n  corrFuncLength %d\n  corrFuncStride %d\n  corrFuncNormalize %s\n"
+               "  distanceVec {\n    group1 { dummyAtom (0, 0, 0) }\n    group2 { atomNumbers 1 }\n  }\n}" % (
+                   "coordinate_p2" if spec["p2"] else "coordinate", spec["L"], spec["stride"], "on" if spec["normalize"] else "off"))
+    else:
+        cfg = cvz.zvar("z0", 1, -20, 20, 0.5, extra={"corrFunc": "on", "corrFuncType": "coordinate", "corrFuncLength": str(spec["L"]),
+                                                    "corrFuncStride": str(spec["stride"]), "corrFuncNormalize": "on" if spec["normalize"] else "off"})
     # correlation functions are written together with the periodic restart files: make the last step one of them
     rf = ((len(spec["x"]) - 1) // spec["stride"]) * spec["stride"]
     cfg = "colvarsRestartFrequency %d\n" % rf + cfg
     L = ["natoms 2", "outprefix %s" % pct(prefix), "config <<END\n%s\nEND" % cfg]
-    for x in spec["x"][:rf + 1]:
-        L += [cvz.pos_line_z([x], 2), "step"]
+    for t, x in enumerate(spec["x"][:rf + 1]):
+        if spec.get("vec"):
+            L += ["pos " + " ".join(fnum(c) for c in spec["xyz"][t] + [0.5, 0.5, 0.5]), "step"]
+        else:
+            L += [cvz.pos_line_z([x], 2), "step"]
     case = "\n".join(L) + "\n"
     r = run_case(case)
     if r.crashed or r.of("config")[0]["rc"] != 0:
         return Outcome(False, msg="crash/rejected %s %s" % (r.of("config")[:1], r.stderr[-300:]), sig="gen_invalid", case_text=case)
-    vals = [s["cv"][0]["x"][0] for s in r.of("step")][1:]      # the first step initialises the analysis
+    vals = [s["cv"][0]["x"] for s in r.of("step")][1:]      # the first step initialises the analysis
+
+    def prod(a, b):
+        dot = sum(p * q for p, q in zip(a, b))
+        if spec.get("p2"):
+            c = dot / math.sqrt(sum(p * p for p in a) * sum(q * q for q in b))
+            return 1.5 * c * c - 0.5
+        return dot
     s_, Lc = spec["stride"], spec["L"]
     # origins: samples for which all Lc lags (multiples of the stride) are available
     acc = [0.0] * (Lc + 1)
@@ -311,7 +331,7 @@ def check_acf(spec, ctx):
             continue
         n += 1
         for k in range(Lc + 1):
-            acc[k] += vals[t] * vals[t - k * s_]
+            acc[k] += prod(vals[t], vals[t - k * s_])
     try:
         lines = [l.split() for l in open(path).read().splitlines() if l.strip() and not l.startswith("#")]
     except OSError:
@@ -330,8 +350,9 @@ def check_acf(spec, ctx):
         if int(ln[0]) != k * s_ or not (abs(got - exp) <= 1e-11 * max(1.0, abs(exp))):
             return Outcome(False, msg="C(%s): file has %r; mean lagged product over the %d available origins %sis %r" %
                            (ln[0], got, n, "normalised by C(0) " if spec["normalize"] else "", exp), sig="acf_value", case_text=case)
-    return Outcome(True, nontrivial=n >= 2, cls=("L%d" % Lc, "s%d" % s_, "norm" if spec["normalize"] else "raw"), strata=["norm" if spec["normalize"] else "raw"],
-                   case_text=case)
+    kindv = "p2vec" if spec.get("p2") else ("vec" if spec.get("vec") else "scalar")
+    return Outcome(True, nontrivial=n >= 2, cls=("L%d" % Lc, "s%d" % s_, "norm" if spec["normalize"] else "raw", kindv),
+                   strata=["norm" if spec["normalize"] else "raw", "acf:" + kindv], case_text=case)
 
 
 def view(spec):
@@ -343,3 +364,5 @@ PARTS = {
     "runave": {"strategy": spec_runave, "check": check_runave, "examples": {"quick": 800, "thorough": 10000}, "sample": view},
     "corrfunc": {"strategy": spec_acf, "check": check_acf, "examples": {"quick": 800, "thorough": 10000}, "sample": view},
 }
+
+REQUIRED_STRATA = {"all": ["corrfunc:acf:vec", "corrfunc:acf:p2vec", "corrfunc:acf:scalar"]}
